@@ -1,10 +1,10 @@
 from common import T_COMMON
 
 CFG = dict(
-    modules=["PolyVerif.Props.C06", "PolyVerif.Props.C06Scene", "PolyVerif.Props.C06Data", "PolyVerif.Props.C06Tables", "PolyVerif.Props.C06Carry"],
+    modules=["PolyVerif.Props.C06", "PolyVerif.Props.C06Scene", "PolyVerif.Props.C06Data", "PolyVerif.Props.C06Tables", "PolyVerif.Props.C06Carry", "PolyVerif.Props.C06Valid"],
     # property theorems (audited); scene_* quantify over EVERY well-formed scene, gltf_* over every admissible write sequence
     theorems=["scene_inv", "scene_valid_low", "gltf_refs_in_range", "scene_refs_ok", "gltf_node_trs",
-              "scene_dinv", "gltf_prims_consistent", "scene_prims_ok", "gltf_carries_scene",
+              "scene_dinv", "gltf_prims_consistent", "scene_prims_ok", "gltf_carries_scene", "gltf_extensions_declared", "scene_nodes_ok", "gltf_scene_valid",
               "gltf_bytesWritten_eq_len", "gltf_views_tile", "gltf_accessor_fits", "gltf_minmax",
               "gltf_decode_image", "gltf_decode_indices", "gltf_index_width",
               "glb_frame_length", "glb_frame", "glb_frame_bin",
@@ -13,7 +13,7 @@ CFG = dict(
     helper_theorems=["leVal_leBytes", "decodeN_encodeComps", "isMinOf_fold", "isMaxOf_fold", "tiles_append", "tiles_inside",
                      "tiles_disjoint", "decodeAcc_append", "accOK_append", "accOK_new_vec", "boundsOK_vec", "inv_step", "inv_run",
                      "inv_addMesh", "inv_addInstances", "inv_addModel", "lowEq_addMaterial", "lowEq_addTexture",
-                     "addMaterial_refs", "addMesh_refs", "addInstances_refs", "addModel_refs", "addLight_refs", "mrefs_mono", "gltf_refs_in_range_partial", "addTexture_trefs", "addMaterial_trefs", "dinv_addMesh", "dinv_addModel", "addModel_carries", "addModels_carries", "addLights_carries", "carries_of_Carries", "addInstances_carried"],
+                     "addMaterial_refs", "addMesh_refs", "addInstances_refs", "addModel_refs", "addLight_refs", "mrefs_mono", "gltf_refs_in_range_partial", "addTexture_trefs", "addMaterial_trefs", "dinv_addMesh", "dinv_addModel", "addModel_carries", "addModels_carries", "addLights_carries", "carries_of_Carries", "addInstances_carried", "scene_nodes_structure", "scene_xinv", "addMaterial_xinv", "addTexture_xinv"],
     streams=[dict(name="c06", n=dict(quick=150, thorough=15000))],
     trusted=T_COMMON + [
         "hand-written model PolyVerif/Model/Gltf.lean of formats/gltf/{writer,write,model,model_trackers}.go, tied by exact comparison of the parsed document, the buffer bytes and the GLB file bytes (stream c06)",
